@@ -183,3 +183,177 @@ def add_mat_size_conversions(u, n_all=(2, 3, 4)):
                 u.add(md.path, 'impl<T> FromSpecImpl<%s<T>> for %s<T>%s {\n    open spec fn obeys_from_spec() -> bool { true }\n'
                       '    open spec fn from_spec(m: %s<T>) -> %s<T> { %s }\n}'
                       % (msrc.name, md.name, bound, msrc.name, md.name, mlit(md, md.name, el)))
+
+
+# ------------------------------------------------------------------ C06: determinants, inverses
+def add_determinant(u, ms):
+    P, N = ms.path, ms.name
+    A = SM.of(ms, 'self')
+    u.take(P, 'impl<T>%s<T>' % N, 'determinant', C(ensures=['res.v@ == ' + X.verus(A.det())]))
+
+
+def inv_spec(A):
+    d = A.det()
+    return A.adj().map(lambda x: x / d)
+
+
+def add_inverted(u, ms, prologue=''):
+    P, N, n = ms.path, ms.name, ms.n
+    A = SM.of(ms, 'self')
+    d = X.verus(A.det())
+    I = inv_spec(A)
+    ens = ['%s != 0real ==> %s.v@ == %s' % (d, ms.at('res', i, j), X.verus(I[i, j])) for i in range(n) for j in range(n)]
+    u.take(P, 'impl<T>%s<T>' % N, 'inverted', C(ensures=ens, prologue=prologue))
+
+
+def det4_code_shape(A):
+    """mirror of mat.rs `determinant` for 4x4 (flat signed products, left-assoc), used only as a bridge:
+    Verus matches it against the code, z3-nlsat proves it equal to the Leibniz expansion"""
+    m = lambda i, j: A[i, j]
+    P = lambda a, b, c, d: ((m(0, a) * m(1, b)) * m(2, c)) * m(3, d)
+    terms = [(+1, (3, 2, 1, 0)), (-1, (2, 3, 1, 0)), (-1, (3, 1, 2, 0)), (+1, (1, 3, 2, 0)), (+1, (2, 1, 3, 0)),
+             (-1, (1, 2, 3, 0)), (-1, (3, 2, 0, 1)), (+1, (2, 3, 0, 1)), (+1, (3, 0, 2, 1)), (-1, (0, 3, 2, 1)),
+             (-1, (2, 0, 3, 1)), (+1, (0, 2, 3, 1)), (+1, (3, 1, 0, 2)), (-1, (1, 3, 0, 2)), (-1, (3, 0, 1, 2)),
+             (+1, (0, 3, 1, 2)), (+1, (1, 0, 3, 2)), (-1, (0, 1, 3, 2)), (-1, (2, 1, 0, 3)), (+1, (1, 2, 0, 3)),
+             (+1, (2, 0, 1, 3)), (-1, (0, 2, 1, 3)), (-1, (1, 0, 2, 3)), (+1, (0, 1, 2, 3))]
+    r = None
+    for s, (a, b, c, d) in terms:
+        t = P(a, b, c, d)
+        r = t if r is None else (r + t if s > 0 else r - t)
+    return r
+
+
+def _lanes(lo, hi, mask):
+    return SV([lo[mask[0]], lo[mask[1]], hi[mask[2]], hi[mask[3]]])
+
+
+def _ew(a, b, f):
+    return SV([f(x, y) for x, y in zip(a.e, b.e)])
+
+
+def inverted4_mirror(m):
+    """mirror of mat.rs Mat4::inverted at the granularity of its callee contracts (a proof artifact:
+    Verus checks it against the real body, z3-nlsat proves it equal to adj/det).
+    m: the four stored vectors (rows or columns).  returns (four result vectors, det_m expression)"""
+    import shufcore as S
+    mul = lambda p, q: S.flat_rows(S.m2rows(p) @ S.m2rows(q))
+    adj_mul = lambda p, q: S.flat_rows(S.m2rows(p).adj() @ S.m2rows(q))
+    mul_adj = lambda p, q: S.flat_rows(S.m2rows(p) @ S.m2rows(q).adj())
+    a = SV([m[0][0], m[0][1], m[1][0], m[1][1]])
+    b = SV([m[0][2], m[0][3], m[1][2], m[1][3]])
+    c = SV([m[2][0], m[2][1], m[3][0], m[3][1]])
+    d = SV([m[2][2], m[2][3], m[3][2], m[3][3]])
+    bc = lambda x: SV([x, x, x, x])
+    det_a = bc(m[0][0] * m[1][1] - m[0][1] * m[1][0])
+    det_b = bc(m[0][2] * m[1][3] - m[0][3] * m[1][2])
+    det_c = bc(m[2][0] * m[3][1] - m[2][1] * m[3][0])
+    det_d = bc(m[2][2] * m[3][3] - m[2][3] * m[3][2])
+    d_c = adj_mul(d, c)
+    a_b = adj_mul(a, b)
+    mulv = lambda p, q: _ew(p, q, lambda x, y: x * y)
+    subv = lambda p, q: _ew(p, q, lambda x, y: x - y)
+    addv = lambda p, q: _ew(p, q, lambda x, y: x + y)
+    x_ = subv(mulv(det_d, a), mul(b, d_c))
+    w_ = subv(mulv(det_a, d), mul(c, a_b))
+    y_ = subv(mulv(det_b, c), mul_adj(d, a_b))
+    z_ = subv(mulv(det_c, b), mul_adj(a, d_c))
+    tr = mulv(a_b, _lanes(d_c, d_c, (0, 2, 1, 3)))
+    hadd = lambda p, q: SV([p[0] + p[1], p[2] + p[3], q[0] + q[1], q[2] + q[3]])
+    tr = hadd(tr, tr)
+    tr = hadd(tr, tr)
+    det_m = subv(addv(mulv(det_a, det_d), mulv(det_b, det_c)), tr)
+    one = X.const(1)
+    sign = SV([one, -one, -one, one])
+    r = _ew(sign, det_m, lambda s, dm: s / dm)
+    x_, y_, z_, w_ = mulv(x_, r), mulv(y_, r), mulv(z_, r), mulv(w_, r)
+    out = [_lanes(x_, y_, (3, 1, 3, 1)), _lanes(x_, y_, (2, 0, 2, 0)), _lanes(z_, w_, (3, 1, 3, 1)),
+           _lanes(z_, w_, (2, 0, 2, 0))]
+    return out, det_m
+
+
+def inverted4_lemmas(ms, prop='C06'):
+    """(lemmas, prologue text) bridging Mat4::inverted's block algorithm to adj/det"""
+    import lemma as L
+    n = 4
+    A = SM.params('m', n)
+    if ms.layout == 'rows':
+        stored = [SV([A[i, j] for j in range(n)]) for i in range(n)]
+    else:
+        stored = [SV([A[i, j] for i in range(n)]) for j in range(n)]
+    out, det_m = inverted4_mirror(stored)
+    res = (lambda i, j: out[i][j]) if ms.layout == 'rows' else (lambda i, j: out[j][i])
+    det = A.det()
+    nm = 'inv4_%s' % ms.layout
+    l1 = L.Lemma('lemma_%s_det' % nm, A.flat(), [], [det_m[k].eq(det) for k in range(4)],
+                 doc='the block-wise determinant computed by Mat4::inverted equals the cofactor expansion')
+    I = inv_spec(A)
+    l2 = L.Lemma('lemma_%s_adj' % nm, A.flat(), [det.ne(0)] + [det_m[k].ne(0) for k in range(4)],
+                 [res(i, j).eq(I[i, j]) for i in range(n) for j in range(n)],
+                 doc='every entry produced by the 2x2-block inverse equals adj(M)(i,j)/det(M)')
+    Au = SM.of(ms, 'self')
+    args = ', '.join(X.verus(x) for x in Au.flat())
+    pro = ('proof { crate::%s(%s); if %s != 0real { crate::%s(%s); } }'
+           % (l1.name, args, X.verus(Au.det()), l2.name, args))
+    return [l1, l2], pro
+
+
+# ------------------------------------------------------------------ theorem functions (Layer 2 glue)
+def thm_fn(name, params, requires, body, asserts, tagprefix):
+    """an exec `theorem` function: calls the real API and asserts the property; verified modularly
+    against the callee contracts (+ the arithmetic lemmas it invokes)"""
+    s = '// @fn thm/%s\npub fn %s(%s)\n' % (name, name, ', '.join(params))
+    if requires:
+        s += '    requires\n' + ''.join('        %s,\n' % r for r in requires)
+    s += '{\n' + body + '\n'
+    for k, a in enumerate(asserts):
+        s += '    assert(%s); // @thm %s/%s.%d\n' % (a, tagprefix, name, k)
+    s += '}\n'
+    return s
+
+
+def lemma_args(sm):
+    return ', '.join(X.verus(x) for x in sm.flat())
+
+
+def c06_theorems(u, prop='C06'):
+    """returns the list of lemmas; adds theorem fns to the unit"""
+    import lemma as L
+    lemmas = []
+    for n in (2, 3, 4):
+        A, B = SM.params('a', n), SM.params('b', n)
+        lm_t = L.Lemma('lemma_det%d_transpose' % n, A.flat(), [], [A.T().det().eq(A.det())], doc='det(M^T) == det(M)')
+        lm_m = L.Lemma('lemma_det%d_mul' % n, A.flat() + B.flat(), [], [(A @ B).det().eq(A.det() * B.det())],
+                       doc='det(A*B) == det(A)*det(B)')
+        lemmas += [lm_t, lm_m]
+        for layout in ('rows', 'cols'):
+            ms = mat(n, layout)
+            o = other(ms)
+            Au, Bu = SM.of(ms, 'a'), SM.of(ms, 'b')
+            T = '%s<R>' % ms.name
+            body = ('    let t = a.transposed();\n    let dt = t.determinant();\n    let da = a.determinant();\n'
+                    '    let o = Transpose::from(a);\n    let d_o = o.determinant();\n'
+                    '    let p = a * b;\n    let dp = p.determinant();\n    let db = b.determinant();\n'
+                    '    proof { crate::%s(%s); crate::%s(%s, %s); }'
+                    % (lm_t.name, lemma_args(Au), lm_m.name, lemma_args(Au), lemma_args(Bu)))
+            u.add(ms.path, thm_fn('thm_det_%s%d' % (layout, n), ['a: %s' % T, 'b: %s' % T], [], body,
+                                  ['dt.v@ == da.v@', 'd_o.v@ == da.v@', 'dp.v@ == da.v@ * db.v@'], prop))
+    # two-sided inverse, 4x4
+    A = SM.params('m', 4)
+    I = inv_spec(A)
+    Id = SM.identity(4)
+    lm_r = L.Lemma('lemma_inv4_right', A.flat(), [A.det().ne(0)], (A @ I).eqs(Id), doc='M * (adj M / det M) == I')
+    lm_l = L.Lemma('lemma_inv4_left', A.flat(), [A.det().ne(0)], (I @ A).eqs(Id), doc='(adj M / det M) * M == I')
+    lemmas += [lm_r, lm_l]
+    for layout in ('rows', 'cols'):
+        ms = mat(4, layout)
+        Mu = SM.of(ms, 'm')
+        T = '%s<R>' % ms.name
+        body = ('    let inv = m.inverted();\n    let p = m * inv;\n    let q = inv * m;\n'
+                '    proof { crate::lemma_inv4_right(%s); crate::lemma_inv4_left(%s); }' % (lemma_args(Mu), lemma_args(Mu)))
+        asserts = ['%s.v@ == %dreal' % (ms.at('p', i, j), 1 if i == j else 0) for i in range(4) for j in range(4)]
+        asserts += ['%s.v@ == %dreal' % (ms.at('q', i, j), 1 if i == j else 0) for i in range(4) for j in range(4)]
+        u.add(ms.path, thm_fn('thm_inverse_%s' % layout, ['m: %s' % T], ['%s != 0real' % X.verus(Mu.det())],
+                              body, asserts, prop))
+    for lm in lemmas:
+        u.add_root(lm.verus_text(prop))
+    return lemmas
